@@ -312,6 +312,10 @@ pub fn like_match(s: &str, p: &str) -> bool {
         if p.is_empty() {
             return s.is_empty();
         }
+        // backslash before a wildcard makes it literal (the engine's documented-by-code escape)
+        if p[0] == '\\' && p.len() >= 2 && (p[1] == '%' || p[1] == '_') {
+            return !s.is_empty() && s[0] == p[1] && rec(&s[1..], &p[2..]);
+        }
         match p[0] {
             '%' => (0..=s.len()).any(|k| rec(&s[k..], &p[1..])),
             '_' => !s.is_empty() && rec(&s[1..], &p[1..]),
